@@ -1,31 +1,49 @@
 ----------------------------- MODULE MCDagWalk -----------------------------
-(* Phase M case spaces for DagWalk: every DAG on MCN nodes (ordered link lists without repetition,
+(* Phase M / G case spaces for DagWalk: every DAG on N nodes (ordered link lists without repetition,
    sharing and unreachable nodes included), every status assignment, depth limits, concurrency,
-   SkipRoot, handler-option lists, OnError behaviours. *)
+   SkipRoot, handler-option lists (every order), OnError behaviours.  A family is the full product
+   of its dimensions; the named case sets are unions of families. *)
 EXTENDS DagWalk
-CONSTANTS MCN, MCStatus, MCLims, MCConcs, MCSkips, MCHandlerLists, MCOers, MCProvs
 
 \* all sequences of distinct elements of S
 SeqsOver(S) == UNION {{s \in [1..k -> S] : \A i, j \in 1..k : i # j => s[i] # s[j]} : k \in 0..Cardinality(S)}
-AllLinkLists == SeqsOver(2..MCN)
-Graphs == {g \in [1..MCN -> AllLinkLists] : \A i \in 1..MCN : g[i] \in SeqsOver((i + 1)..MCN)}
+\* all DAGs on 1..N as tuples of link lists (node i links only to larger nodes)
+GraphsOn(N) == LET S == [i \in 1..N |-> SeqsOver((i + 1)..N)]
+                   RECURSIVE G(_)
+                   G(i) == IF i > N THEN {<<>>} ELSE {<<s>> \o t : s \in S[i], t \in G(i + 1)}
+               IN G(1)
+\* every node reachable from the root
+Connected(g) == \A i \in 2..Len(g) : \E p \in 1..(i - 1) : i \in ToSet(g[p])
 
-\* handler-option lists: all sequences of distinct options up to the given length
 HandlerOpts == {"IgnoreErrors", "IgnoreMissing", "OnMissing", "OnError"}
 ListsUpTo(m) == {s \in SeqsOver(HandlerOpts) : Len(s) <= m}
-
-Lims2 == -1..2
-Lims3 == -1..3
-LimNone == {-1}
 HL_Shape == {<<>>, <<"IgnoreMissing">>, <<"OnMissing", "IgnoreErrors">>}
-HL_2     == ListsUpTo(2)
-HL_All   == ListsUpTo(4)
+AllOers  == {"same", "nil", "wrap"}
+St2 == {"ok", "missing"}
+St3 == {"ok", "missing", "bad"}
 
-MCCases ==
-  {[n |-> MCN, links |-> g, status |-> st, loc |-> [i \in 1..MCN |-> i % 2 = 0], lim |-> lim, conc |-> cc,
+Fam(N, graphs, Status, Lims, Concs, Skips, HLs, Oers, Provs) ==
+  {[n |-> N, links |-> g, status |-> st, loc |-> [i \in 1..N |-> i % 2 = 0], lim |-> lim, conc |-> cc,
     skip |-> sk, hs |-> hs, oer |-> oer, prov |-> pv] :
-     g \in Graphs, st \in [1..MCN -> MCStatus], lim \in MCLims, cc \in MCConcs, sk \in MCSkips,
-     hs \in MCHandlerLists, oer \in MCOers, pv \in MCProvs}
+     g \in graphs, st \in [1..N -> Status], lim \in Lims, cc \in Concs, sk \in Skips,
+     hs \in HLs, oer \in Oers, pv \in Provs}
 \* the OnError behaviour only matters when OnError is configured
-MCCasesNorm == {c \in MCCases : c.oer = "same" \/ "OnError" \in ToSet(c.hs)}
+Norm(S) == {c \in S : c.oer = "same" \/ "OnError" \in ToSet(c.hs)}
+
+\* ---- M ---------------------------------------------------------------------------------------
+ShapeQ  == Fam(3, GraphsOn(3), St2, -1..2, {1, 2}, BOOLEAN, HL_Shape, {"same"}, {TRUE})
+HandQ   == Fam(2, GraphsOn(2), St3, {-1}, {1, 2}, {FALSE}, ListsUpTo(2), AllOers, BOOLEAN)
+MQuick  == Norm(ShapeQ \cup HandQ)
+MShape4 == Norm(Fam(4, GraphsOn(4), St2, -1..3, {1, 2}, BOOLEAN, HL_Shape, {"same"}, {TRUE}))
+MConc3  == Norm(Fam(3, GraphsOn(3), St2, -1..2, {3}, BOOLEAN, HL_Shape, {"same"}, {TRUE}))
+MHand   == Norm(Fam(3, GraphsOn(3), St3, {-1}, {1, 3}, BOOLEAN, ListsUpTo(4), AllOers, BOOLEAN))
+MDev    == Norm(Fam(3, GraphsOn(3), St2, {-1}, {2}, {FALSE}, HL_Shape, {"same"}, {TRUE}))
+
+\* ---- G (sequential walks only) ---------------------------------------------------------------
+RootOk(S) == {c \in S : c.status[1] = "ok"}
+ConnG(N)  == {g \in GraphsOn(N) : Connected(g)}
+GShapeQ == Fam(3, GraphsOn(3), St2, -1..2, {0, 1}, BOOLEAN, HL_Shape, {"same"}, {TRUE})
+GHandQ  == RootOk(Fam(3, ConnG(3), St3, {-1}, {1}, {FALSE}, ListsUpTo(2), AllOers, {TRUE}))
+GShapeT == Fam(4, GraphsOn(4), St2, -1..3, {1}, BOOLEAN, HL_Shape, {"same"}, {TRUE})
+GHandT  == Fam(3, ConnG(3), St3, {-1}, {1}, BOOLEAN, ListsUpTo(4), AllOers, {TRUE})
 =============================================================================
